@@ -89,8 +89,20 @@ type c06Case struct {
 	BMins [4]int `json:"bmins,omitempty"`
 }
 
-func c06Inst(day, min int, layout string) string {
-	return strings.TrimSuffix(vFmtDay(day, layout), "00:00") + fmt.Sprintf("%02d:%02d", min/60, min%60)
+// c06Unit: how many units of Mins/BMins a day has under the layout (minutes, or milliseconds for the layout with
+// fractional seconds)
+func c06Unit(layout string) int {
+	if layout == "2006-01-02 15:04:05.000" {
+		return 86400000
+	}
+	return 1440
+}
+
+func c06Inst(day, v int, layout string) string {
+	if layout == "2006-01-02 15:04:05.000" {
+		return strings.TrimSuffix(vFmtDay(day, layout), "00:00:00.000") + fmt.Sprintf("%02d:%02d:%02d.%03d", v/3600000, v/60000%60, v/1000%60, v%1000)
+	}
+	return strings.TrimSuffix(vFmtDay(day, layout), "00:00") + fmt.Sprintf("%02d:%02d", v/60, v%60)
 }
 
 func c06SortedLines(s string) string {
@@ -101,7 +113,7 @@ func c06SortedLines(s string) string {
 
 func checkC06(c c06Case, ctx *vCtx) *vFailure {
 	if c.Clock {
-		if c.Layout != "2006-01-02 15:04" || len(c.Mins) != len(c.S.Log.Recs) || c.Summary != nil {
+		if (c.Layout != "2006-01-02 15:04" && c.Layout != "2006-01-02 15:04:05.000") || len(c.Mins) != len(c.S.Log.Recs) {
 			vFault("C06 clock mode: layout %q, %d records, %d minutes", c.Layout, len(c.S.Log.Recs), len(c.Mins))
 		}
 		recs := append([]vRec{}, c.S.Log.Recs...)
@@ -163,6 +175,9 @@ func checkC06(c c06Case, ctx *vCtx) *vFailure {
 	if c.Summary != nil {
 		day, _ := c.Summary.resolve(c.Today)
 		arg := c.Summary.text(c.Layout)
+		if c.Clock && c.Summary.Kind == "date" {
+			arg = c06Inst(c.Summary.Day, c.BMins[0], c.Layout) // any instant of the day names the day
+		}
 		ctx.Label("summary:" + c.Summary.Kind)
 		base := append([]string{}, fmtArgs...)
 		inv := vInvocation{Args: append(append(base, "-d", bookPath, "-l", fullPath), "--no-color", "summary", arg), TZ: c.TZ}
@@ -215,9 +230,10 @@ func checkC06(c c06Case, ctx *vCtx) *vFailure {
 		if cmd.sub && c.SE.Kind != "" {
 			kE = 3
 		}
-		loI, hiI := lo*1440+bmin(effB, kB), hi*1440+bmin(effE, kE)
+		unit := c06Unit(c.Layout)
+		loI, hiI := lo*unit+bmin(effB, kB), hi*unit+bmin(effE, kE)
 		sel = func(i int) bool {
-			ti := c.S.Days[i]*1440 + c.Mins[i]
+			ti := c.S.Days[i]*unit + c.Mins[i]
 			return (!hasLo || ti >= loI) && (!hasHi || ti <= hiI)
 		}
 		btext = func(b c06Bound, k int) string {
@@ -342,7 +358,7 @@ func genC06Bound(t *rapid.T, base int, today int, label string) c06Bound {
 }
 
 func genC06(t *rapid.T) c06Case {
-	layout := []string{"", "", "2006-01-02", "02.01.2006"}[rapid.IntRange(0, 3).Draw(t, "layout")]
+	layout := []string{"", "", "2006-01-02", "02.01.2006", "2006/02/01"}[rapid.IntRange(0, 4).Draw(t, "layout")]
 	// windows incl. month, year and leap-day boundaries and daylight-saving changes (2021-03-14 Havana/US, 2021-03-28 EU,
 	// 2021-09-05 Santiago, 2021-11-07 US)
 	// -3 and 1458: 31 December of a leap year next to 1 January
@@ -372,6 +388,27 @@ func genC06(t *rapid.T) c06Case {
 		Bin:     rapid.IntRange(0, 29).Draw(t, "bin") == 0,
 		LongOpt: rapid.IntRange(0, 3).Draw(t, "long") == 0,
 		FmtVia:  []string{"", "", "env", "config"}[rapid.IntRange(0, 3).Draw(t, "fmtvia")]}
+	if layout == "" && rapid.IntRange(0, 2).Draw(t, "clock") == 0 {
+		// a date format with a clock component: the period is an interval of instants (minutes, or milliseconds)
+		c.Clock, c.Layout = true, []string{"2006-01-02 15:04", "2006-01-02 15:04:05.000"}[rapid.IntRange(0, 1).Draw(t, "clocklayout")]
+		unit := c06Unit(c.Layout)
+		edges := []int{0, 1, 719, 720, 1438, 1439}
+		if unit > 1440 {
+			edges = []int{0, 1, 999, 1000, 43200000, 86399000, 86399001, 86399250, 86399999}
+		}
+		instant := func(label string) int {
+			if rapid.Bool().Draw(t, label+".edge") {
+				return edges[rapid.IntRange(0, len(edges)-1).Draw(t, label+".e")]
+			}
+			return rapid.IntRange(0, unit-1).Draw(t, label+".m")
+		}
+		for i := range c.S.Log.Recs {
+			c.Mins = append(c.Mins, instant(fmt.Sprintf("min%d", i)))
+		}
+		for k := range c.BMins {
+			c.BMins[k] = instant(fmt.Sprintf("bmin%d", k))
+		}
+	}
 	if rapid.IntRange(0, 7).Draw(t, "summary") == 0 {
 		b := genC06Bound(t, base, today, "sum")
 		if b.Kind == "" {
@@ -381,22 +418,6 @@ func genC06(t *rapid.T) c06Case {
 		return c
 	}
 	c.Cmd = rapid.IntRange(0, len(c06Commands)-1).Draw(t, "cmd")
-	if layout == "" && rapid.IntRange(0, 2).Draw(t, "clock") == 0 {
-		// a date format with a clock component: the period is an interval of instants
-		minute := func(label string) int {
-			if rapid.Bool().Draw(t, label+".edge") {
-				return []int{0, 1, 719, 720, 1438, 1439}[rapid.IntRange(0, 5).Draw(t, label+".e")]
-			}
-			return rapid.IntRange(0, 1439).Draw(t, label+".m")
-		}
-		c.Clock, c.Layout = true, "2006-01-02 15:04"
-		for i := range c.S.Log.Recs {
-			c.Mins = append(c.Mins, minute(fmt.Sprintf("min%d", i)))
-		}
-		for k := range c.BMins {
-			c.BMins[k] = minute(fmt.Sprintf("bmin%d", k))
-		}
-	}
 	switch rapid.IntRange(0, 2).Draw(t, "position") {
 	case 0:
 		c.GB, c.GE = genC06Bound(t, base, today, "gb"), genC06Bound(t, base, today, "ge")
